@@ -392,6 +392,9 @@ def evalS (pm : List Param) : Stmt → Frame → M (Frame × Sig)
   | .prim .decawmFromState, s => .ok ({ s with e := { s.e with mode := { s.e.mode with decawm := s.state.decawm } } }, .norm)
   | .prim .decomFromState, s => .ok ({ s with e := { s.e with mode := { s.e.mode with decom := s.state.decom } } }, .norm)
   | .prim .charsetsReset, s => .ok ({ s with e := { s.e with cs := {} } }, .norm)
+  | .prim .penReset, s => .ok ({ s with e := { s.e with cur := { s.e.cur with st := {} } } }, .norm)
+  | .prim .savedPReset, s => .ok ({ s with e := { s.e with savedP := {} } }, .norm)
+  | .prim .savedAReset, s => .ok ({ s with e := { s.e with savedA := {} } }, .norm)
   | .prim .modeReset, s => .ok ({ s with e := { s.e with mode := { decawm := true, dectcem := true } } }, .norm)
   | .setMode f b, s => .ok ({ s with e := { s.e with mode := s.e.mode.set f b } }, .norm)
   | .reply, s => .ok (s, .norm)
